@@ -131,6 +131,18 @@ def run(ctx):
             for _ in range(r.range(1, 4)):
                 b[r.range(1100, len(b) - 1)] ^= 1 << r.below(8)
             images.append(('g%d.hfe' % k, bytes(b), 'flux-damaged'))
+    # two-sided images one side of which has no file system (never formatted): --show-config has a surface to list that has no format
+    for (k2, spt2, ext2) in ((0, 10, 'dsd'), (1, 18, 'ddd')):
+        d2 = discs.gen_disc(r, variant='dfs', geom=(40, spt2), max_files=4, total=min(40 * spt2, 1023))
+        for c_ in d2.cats:
+            if c_.files:
+                c_.files[-1].name, c_.files[-1].dir = b'A', 0x24
+        s0 = d2.encode(lambda n: bytes(n))
+        tb = spt2 * 256
+        images.append(('h%d.%s' % (k2, ext2), b''.join(s0[t * tb:(t + 1) * tb] + bytes([0xE5]) * tb for t in range(40)), 'valid'))
+        if k2 == 0:
+            trs2 = flux.tracks_of_image(s0 + bytes([0xE5]) * len(s0), 40, spt2, 2, False)
+            images.append(('h%d.hfe' % k2, flux.hfe_image(trs2, 2, True), 'flux'))
     cases = []
     variants = [[], ['--verbose'], ['--show-config'], ['--verbose', '--show-config'], ['@after:--verbose'], ['--ui', 'acorn'], ['--ui', 'watford'], ['--ui', 'opus']]
     for (name, img, kind) in images:
